@@ -362,6 +362,14 @@ def r5(R, repo):
       R.fail(key_of(f, 'mismatch raises with the path before restoring children'), (f, one_sided[0]), '_restore_namedtuple compares the field sets one-sidedly (`%s`): a field of the target that is missing from the saved state no longer raises, '
              'it silently keeps the template\'s value' % astu.short(one_sided[0]))
       continue
+    tp_, sp_ = astu.params(f.node)[0], astu.params(f.node)[1]
+    size_one_sided = [x for n_ in c.nodes if n_.kind == 'if' and any(c.edge_guarded(r_, n_, 'T') or c.edge_guarded(r_, n_, 'F') for r_ in named) for x in ast.walk(n_.ast)
+                      if isinstance(x, ast.Compare) and len(x.ops) == 1 and isinstance(x.ops[0], (ast.LtE, ast.GtE, ast.Lt, ast.Gt))
+                      and {astu.src(x.left), astu.src(x.comparators[0])} == {'len(%s)' % tp_, 'len(%s)' % sp_}]
+    if size_one_sided:
+      R.fail(key_of(f, 'mismatch raises with the path before restoring children'), (f, size_one_sided[0]), '%s rejects a size mismatch in one direction only (`%s`): a saved state that is shorter (or longer) than the target is restored silently, '
+             'leaving part of the target at its template values or dropping saved entries' % (qual, astu.short(size_one_sided[0])))
+      continue
     if not named and not raises and not evid.raises_deep(repo, f, 'ValueError'):
       R.fail(key_of(f, 'mismatch raises with the path before restoring children'), f, '%s no longer raises ValueError for a target/state mismatch' % qual)
     else:
@@ -423,6 +431,29 @@ def r6(R, repo):
         break
     R.judge(bad is None or 'zip()' in bad[1], bad is None, key_of(f, 'children matched by key'), (f, bad[0]) if bad else f,
             '%s: %s — entries could be mis-assigned when the saved state is ordered differently' % (qual, bad[1] if bad else ''))
+    if qual == '_restore_namedtuple':
+      # the restored fields must reach the constructor by name (or in the target's own field order), not in the order of the saved dict
+      key = key_of(f, 'named tuple rebuilt by field name')
+      rets = [n for n in astu.body_walk(f.node) if isinstance(n, ast.Return) and isinstance(n.value, ast.Call)]
+      verdict = None
+      for r_ in rets:
+        call = r_.value
+        if any(k.arg is None for k in call.keywords) and not call.args:
+          verdict = verdict or 'ok'
+          continue
+        positional = astu.call_tail(call) == '_make' or any(isinstance(a_, ast.Starred) for a_ in call.args)
+        if positional:
+          src_args = [a_.value if isinstance(a_, ast.Starred) else a_ for a_ in call.args]
+          iters = [g_.iter for a_ in src_args for e_ in evid.expand(f, a_) if isinstance(e_, ast.AST) for n_ in ast.walk(e_) if isinstance(n_, (ast.GeneratorExp, ast.ListComp)) for g_ in n_.generators]
+          if iters and all(sp in astu.names_loaded(it_) and tp not in astu.names_loaded(it_) for it_ in iters):
+            R.fail(key, (f, call), '`%s` fills the named tuple positionally in the iteration order of the saved state dict: when that order differs from the target\'s field order (msgpack dicts, older checkpoints) values land in the wrong fields' % astu.short(call))
+            verdict = 'failed'
+          else:
+            verdict = verdict or 'unknown'
+      if verdict == 'ok':
+        R.ok(key, f)
+      elif verdict != 'failed':
+        R.unsure(key, f, 'construction of the restored named tuple not recognised')
 
 
 @rule('C10.R7', 'K5', 5, 'to_state_dict / from_state_dict dispatch symmetrically; the error path is recorded and unwound')
